@@ -42,6 +42,21 @@ pub fn check_input(p: &L, loc: &mut Local) {
             }
         }
     }
+    // the deprecated alias must be the same operation
+    {
+        use crate::laxconv::*;
+        let (mut a, mut b) = (build_lax(p), build_lax(p));
+        #[allow(deprecated)]
+        let ra = catch(|| a.quotient_witness().map(|q| q.table.0).map_err(|q| q.table.0));
+        let rb = catch(|| b.quotient().map(|q| q.table.0).map_err(|q| q.table.0));
+        loc.trans(1);
+        if ra != rb || a != b {
+            loc.violation("quotient_witness-differs-from-quotient", json!({"diagram": p, "alias": format!("{:?}", ra), "quotient": format!("{:?}", rb)}));
+        }
+        if a.hypergraph.is_strict() != a.hypergraph.quotient.0.is_empty() {
+            loc.violation("is_strict-wrong", json!({"diagram": p}));
+        }
+    }
     let (_, k) = classes(p.open.nodes.len(), &p.quot);
     if !p.quot.is_empty() && (k < p.open.nodes.len()) {
         loc.nontrivial();
@@ -110,6 +125,21 @@ pub fn check_one_step(b: &Bounds, s: &L, loc: &mut Local) {
         let o = checked_step(b, &sd, &a);
         if let Some((k, why)) = o.violation {
             loc.violation(&format!("step:{}", k), json!({"state": sd, "action": a, "why": why, "on": if b.hyper_only { "lax::Hypergraph" } else { "lax::OpenHypergraph" }}));
+        }
+    }
+    // the deprecated alias delete_edge is the same operation as delete_edges
+    {
+        use crate::laxconv::*;
+        let m = sd.open.edges.len();
+        for ids in ohmc_core::uni::lists(m, 2) {
+            let (mut a, mut b) = (build_lax_hyper(&sd), build_lax_hyper(&sd));
+            #[allow(deprecated)]
+            let ra = catch(|| a.delete_edge(&eid(&ids)));
+            let rb = catch(|| b.delete_edges(&eid(&ids)));
+            loc.trans(1);
+            if ra.is_ok() != rb.is_ok() || a != b {
+                loc.violation("delete_edge-differs-from-delete_edges", json!({"state": sd, "ids": ids}));
+            }
         }
     }
     if sd.open.edges.len() >= 2 || sd.open.edges.iter().any(|e| e.src.len() >= 3) {
